@@ -307,6 +307,127 @@ fn standoff_incremental(rep: &mut Report, h: &mut History, dir: &str, rng: &mut 
     let _ = std::fs::remove_dir_all(dir);
 }
 
+/// which items belong to which sub-store (by name), next to the ordinary observation
+fn substore_view(store: &AnnotationStore) -> Result<Value, Panic> {
+    guard(|| {
+        let mut subs = Vec::new();
+        for sub in store.substores() {
+            let mut anns: Vec<String> = sub.annotations().map(|a| a.id().map(|s| s.to_string()).unwrap_or_else(|| format!("#{}", a.handle().as_usize()))).collect();
+            anns.sort();
+            let mut res: Vec<String> = sub.resources().map(|r| r.id().unwrap_or("").to_string()).collect();
+            res.sort();
+            let mut sets: Vec<String> = sub.datasets().map(|r| r.id().unwrap_or("").to_string()).collect();
+            sets.sort();
+            subs.push(json!({"id": sub.id(), "annotations": anns, "resources": res, "datasets": sets}));
+        }
+        let mut own: Vec<String> = store.annotations_no_substores().map(|a| a.id().map(|s| s.to_string()).unwrap_or_else(|| format!("#{}", a.handle().as_usize()))).collect();
+        own.sort();
+        json!({"substores": subs, "annotations_of_the_main_store": own})
+    })
+}
+
+/// one level of sub-stores: a store written on its own, included into a main store that adds items of its own
+fn substore_roundtrip(rep: &mut Report, h: &mut History, dir: &str, rng: &mut Rng) {
+    let _ = std::fs::remove_dir_all(dir);
+    std::fs::create_dir_all(dir).expect("workdir");
+    let subpath = format!("{}/sub.store.stam.json", dir);
+    // the sub-store is the store of the history, written inline
+    h.store.set_filename(&subpath);
+    let saved = guard(|| {
+        let cfg = h.store.config().clone().with_use_include(false);
+        h.store.to_json_file(&subpath, &cfg)
+    });
+    if !matches!(saved, Ok(Ok(()))) {
+        let _ = std::fs::remove_dir_all(dir);
+        return; // judged by the inline variant
+    }
+    rep.eval();
+    let built = guard(|| -> Result<AnnotationStore, StamError> {
+        let mut main = AnnotationStore::new(Config::default().with_debug(false).with_workdir(dir.to_string())).with_id("main");
+        main.set_filename(&format!("{}/main.store.stam.json", dir));
+        main.add_substore("sub.store.stam.json")?;
+        // items of the main store itself: a resource, and annotations on it and on a resource of the sub-store
+        main.add_resource(TextResourceBuilder::new().with_id("main-res").with_text("text of the main store"))?;
+        main.annotate(AnnotationBuilder::new().with_id("main-a1").with_target(SelectorBuilder::textselector("main-res", Offset::simple(0, 4))).with_data("main-set", "k", "v"))?;
+        Ok(main)
+    });
+    let mut main = match built {
+        Ok(Ok(m)) => m,
+        Ok(Err(e)) => {
+            rep.violation(format!("C05/substore/build-error/{}", normalise_msg(&format!("{}", e)).chars().take(80).collect::<String>()), json!({"error": format!("{}", e), "history": h.replay_json()}));
+            let _ = std::fs::remove_dir_all(dir);
+            return;
+        }
+        Err(p) => {
+            rep.violation(format!("C05/substore/build-panic/{}", p.class()), json!({"panic": p.msg, "at": p.loc, "history": h.replay_json()}));
+            let _ = std::fs::remove_dir_all(dir);
+            return;
+        }
+    };
+    // an annotation of the main store on text of the sub-store
+    let first_res: Option<(String, usize)> = h.model.resources.values().next().map(|r| (r.id.clone(), r.text.len()));
+    if let Some((rid, len)) = first_res {
+        if len > 0 && rng.chance(2, 3) {
+            let _ = guard(|| main.annotate(AnnotationBuilder::new().with_id("main-a2").with_target(SelectorBuilder::textselector(rid.clone(), Offset::simple(0, 1))).with_data("main-set", "k", "w")));
+        }
+    }
+    let (Ok(before), Ok(before_subs)) = (obs::observe(&main, false, true), substore_view(&main)) else {
+        let _ = std::fs::remove_dir_all(dir);
+        return;
+    };
+    rep.distinct(&format!("substore|{}", h.model.shape()));
+    rep.eval();
+    match guard(|| main.save()) {
+        Ok(Ok(())) => {}
+        Ok(Err(e)) => {
+            rep.violation(format!("C05/substore/save-error/{}", normalise_msg(&format!("{}", e)).chars().take(80).collect::<String>()), json!({"error": format!("{}", e), "history": h.replay_json()}));
+            let _ = std::fs::remove_dir_all(dir);
+            return;
+        }
+        Err(p) => {
+            rep.violation(format!("C05/substore/save-panic/{}", p.class()), json!({"panic": p.msg, "at": p.loc, "history": h.replay_json()}));
+            let _ = std::fs::remove_dir_all(dir);
+            return;
+        }
+    }
+    let mainpath = format!("{}/main.store.stam.json", dir);
+    let maintext = std::fs::read_to_string(&mainpath).unwrap_or_default();
+    if !maintext.contains("@include") {
+        rep.violation("C05/substore/main-store-does-not-include-the-sub-store".to_string(), json!({"main": maintext.chars().take(600).collect::<String>(), "history": h.replay_json()}));
+    }
+    match guard(|| AnnotationStore::from_file(&mainpath, Config::default().with_debug(false))) {
+        Ok(Ok(mut loaded)) => {
+            match (obs::observe(&loaded, false, true), substore_view(&loaded)) {
+                (Ok(after), Ok(after_subs)) => {
+                    rep.count("substore/roundtrips-compared");
+                    rep.count(&format!("substore/annotations-in-substore:{}", after_subs["substores"][0]["annotations"].as_array().map(|a| a.len().min(3)).unwrap_or(0)));
+                    compare(rep, "C05", "substore", &before, &after, h, json!({}));
+                    if let Some((path, a, b)) = first_diff(&before_subs, &after_subs, "") {
+                        rep.violation(format!("C05/substore/membership-differs{}", path_class(&path)), json!({"path": path, "before": a, "after": b, "history": h.replay_json()}));
+                    }
+                }
+                _ => rep.violation("C05/substore/observe-reloaded-panic".to_string(), json!({"history": h.replay_json()})),
+            }
+            // writing the reloaded store again reproduces both files
+            let subtext = std::fs::read_to_string(&subpath).unwrap_or_default();
+            rep.eval();
+            if let Ok(Ok(())) = guard(|| loaded.save()) {
+                let main2 = std::fs::read_to_string(&mainpath).unwrap_or_default();
+                let sub2 = std::fs::read_to_string(&subpath).unwrap_or_default();
+                if main2 != maintext {
+                    rep.violation(format!("C05/substore/second-write-differs/main/{}", text_diff_class(&maintext, &main2)), json!({"diff": first_text_diff(&maintext, &main2), "history": h.replay_json()}));
+                }
+                if sub2 != subtext {
+                    rep.violation(format!("C05/substore/second-write-differs/sub/{}", text_diff_class(&subtext, &sub2)), json!({"diff": first_text_diff(&subtext, &sub2), "history": h.replay_json()}));
+                }
+            }
+        }
+        Ok(Err(e)) => rep.violation(format!("C05/substore/reload-error/{}", normalise_msg(&format!("{}", e)).chars().take(80).collect::<String>()), json!({"error": format!("{}", e), "main": maintext.chars().take(500).collect::<String>(), "history": h.replay_json()})),
+        Err(p) => rep.violation(format!("C05/substore/reload-panic/{}", p.class()), json!({"panic": p.msg, "at": p.loc, "history": h.replay_json()})),
+    }
+    let _ = std::fs::remove_dir_all(dir);
+}
+
 pub fn store_cfg(rng: &mut Rng) -> GenCfg {
     let mut cfg = GenCfg::default();
     cfg.hostile_ids = rng.chance(1, 2);
@@ -346,6 +467,12 @@ pub fn run(p: &Params, rep: &mut Report) {
         let mut cfg2 = store_cfg(&mut rng);
         cfg2.rm_boost = 4;
         standoff_incremental(rep, &mut h, &format!("{}-inc", dir), &mut rng, cfg2);
+        if k % 3 == 0 {
+            let cfg3 = store_cfg(&mut rng);
+            let n3 = rng.range(4, 16) as usize;
+            let mut h3 = random_history(&mut rng, cfg3, n3, 100, true);
+            substore_roundtrip(rep, &mut h3, &format!("{}-sub", dir), &mut rng);
+        }
         if k % 61 == 0 {
             rep.sample(json!({"case": k, "history": h.replay_json(), "gaps": gaps, "idless": idless, "variants": ["inline-pretty", "inline-compact", if jsonres {"standoff-json"} else {"standoff-txt"}]}));
         }
